@@ -209,6 +209,15 @@ func (v *verifier) envForAt(fr *frame, st *State, upto token.Pos) *spec.Env {
 			env.Vars[o.Name()] = val.TV
 		}
 	}
+	// renamed parameters and locals (see locals.go)
+	for old, obj := range v.e.renamesFor(fr.fn) {
+		if _, has := env.Vars[old]; has {
+			continue
+		}
+		if val, ok := st.vars[obj]; ok && val.T != nil && val.Iter == nil {
+			env.Vars[old] = val.TV
+		}
+	}
 	env.Old = v.pre
 	return env
 }
@@ -296,6 +305,15 @@ func (e *Engine) VerifyFunc(pkgPath, key string, modular bool) (rep *FuncReport,
 		v.values = append(v.values, c)
 		if ty.K == spec.KNB { // representation invariant of nullable bytes
 			v.reqs = append(v.reqs, sx.Implies(sx.App("isnull", c), sx.App("=", sx.App("bv", c), sx.Str(""))))
+		}
+	}
+	// a renamed parameter keeps the name the contract knows (see locals.go)
+	for old, obj := range e.renamesFor(fn) {
+		for i, o := range objs {
+			if o == obj {
+				names = append(names, old)
+				args = append(args, args[i])
+			}
 		}
 	}
 	v.names, v.args = names, args
